@@ -423,11 +423,14 @@ Fixpoint serve (fuel : nat) (all : bool) (x : xsys) : xsys :=
     end
   end.
 
+(* enough resumptions for every queued request to be taken, answered or dropped *)
+Definition fuel_for (x : xsys) : nat := 4000 + 4 * length (x_queue x).
+
 (* apply one label: (concrete harness op if any, new state, the segment if an op was emitted) *)
 Definition apply_core (x : xsys) (lab : bytes) (kind : N) (idtxt arg : bytes) : option bytes * xsys * option seg :=
     let id := read_N idtxt in
     let run_op (op : bytes) (x1 : xsys) (g : seg) :=
-        let '(x2, g2) := settle 4000 x1 g in
+        let '(x2, g2) := settle (fuel_for x1) x1 g in
         (Some op, x2, Some g2) in
     if kind =? 78 then       (* N:<hexname> *)
       let '(st, out) := snotify (x_srv x) (unhex arg) in
